@@ -3,7 +3,9 @@
 
 Array payloads are opaque tags (`numpy.savez` / `numpy.load` round-trip arrays, trusted); what is modelled is
 how keys are built, split and classified on load — which is where F6a (`type in key`, a substring test) and
-F6e (`'ids' in key`) went wrong. -/
+F6e (`'ids' in key`) went wrong, and where F6d (a time series has no key for its `time_series` flag: the shape
+`(T, n, w)` of the data alone does not tell a series from tensor data) is repaired by a third, optional key
+`"<prefix>/time_series"`. -/
 namespace Femio.C05K
 
 abbrev Str := List Char
@@ -25,6 +27,7 @@ def joinSep (sep : Char) : List Str → Str
 
 def sIds : Str := ['i', 'd', 's']
 def sData : Str := ['d', 'a', 't', 'a']
+def sTs : Str := ['t', 'i', 'm', 'e', '_', 's', 'e', 'r', 'i', 'e', 's']
 
 /-- `x in s` for strings -/
 def isInfix (x : Str) : Str → Bool
@@ -34,39 +37,55 @@ def isInfix (x : Str) : Str → Bool
 structure Cfg where
   typeByComponent : Bool   -- repair F6a: `_extract_element_type(k) == type` instead of `type in k`
   kindBySuffix : Bool      -- repair F6e: `k.endswith('ids')` instead of `'ids' in k`
+  tsFlag : Bool            -- repair F6d: a third key `time_series`, written for time series only, honoured on load
 deriving Repr, DecidableEq
-def Cfg.upstream : Cfg := ⟨false, false⟩
-def Cfg.fixed : Cfg := ⟨true, true⟩
+def Cfg.upstream : Cfg := ⟨false, false, false⟩
+/-- F6a and F6e repaired, F6d not: exactly two keys per attribute -/
+def Cfg.twoKey : Cfg := ⟨true, true, false⟩
+def Cfg.fixed : Cfg := ⟨true, true, true⟩
 
-/-- a `FEMAttribute`: the two saved arrays -/
+/-- a `FEMAttribute`: the two saved arrays and the `time_series` flag (`ts`: the data has shape `(T, n, w)`, the first
+index is the time step; the shape itself is part of the opaque `data` payload) -/
 structure Attr where
   ids : Nat
   data : Nat
+  ts : Bool
 deriving Repr, DecidableEq
+
+/-- what the two-key scheme (a tree without the repair of F6d) saves of an attribute: the flag has no place -/
+def Attr.twoKey (a : Attr) : Attr := { a with ts := false }
 
 abbrev Dict := List (Str × Nat)
 
-/-- `FEMAttribute.to_dict(prefix)`; `pre = []` is `prefix=None` -/
+/-- `FEMAttribute.to_dict(prefix)`; `pre = []` is `prefix=None`.  The third key is written for time series only
+(value `np.array(True)`, tag 1): nothing changes for the other attributes -/
 def attrToDict (pre : List Str) (a : Attr) : Dict :=
-  [(joinSep '/' (pre ++ [sIds]), a.ids), (joinSep '/' (pre ++ [sData]), a.data)]
+  [(joinSep '/' (pre ++ [sIds]), a.ids), (joinSep '/' (pre ++ [sData]), a.data)] ++
+    (if a.ts then [(joinSep '/' (pre ++ [sTs]), 1)] else [])
 
+def isTsKey (cfg : Cfg) (k : Str) : Bool := cfg.tsFlag && sTs.isSuffixOf k
 def isIdsKey (cfg : Cfg) (k : Str) : Bool := if cfg.kindBySuffix then sIds.isSuffixOf k else isInfix sIds k
 def isDataKey (cfg : Cfg) (k : Str) : Bool := if cfg.kindBySuffix then sData.isSuffixOf k else isInfix sData k
 
-/-- `FEMAttribute.from_dict`: exactly two entries; every key is an ids key or (else) a data key, anything else
-raises; a missing kind is an `UnboundLocalError` — all errors are `none` -/
+/-- `FEMAttribute.from_dict`: two entries (with `tsFlag`: two or three); every key is — tested in this order — a
+`time_series` key (`tsFlag` only; `kwargs['time_series'] = bool(v)`), an ids key or a data key, anything else raises; a
+missing kind is an `UnboundLocalError` — all errors are `none`; without a `time_series` key the flag keeps its default -/
 def attrFromDict (cfg : Cfg) (d : Dict) : Option Attr :=
-  if d.length ≠ 2 then none else
-  let r := d.foldl (fun (acc : Option (Option Nat × Option Nat)) (e : Str × Nat) =>
+  if d.length != 2 && !(cfg.tsFlag && d.length == 3) then none else
+  let r := d.foldl (fun (acc : Option (Option Nat × Option Nat × Bool)) (e : Str × Nat) =>
     match acc with
     | none => none
-    | some (i, dt) =>
-      if isIdsKey cfg e.1 then some (some e.2, dt)
-      else if isDataKey cfg e.1 then some (i, some e.2)
-      else none) (some (none, none))
+    | some (i, dt, ts) =>
+      if isTsKey cfg e.1 then some (i, dt, e.2 != 0)
+      else if isIdsKey cfg e.1 then some (some e.2, dt, ts)
+      else if isDataKey cfg e.1 then some (i, some e.2, ts)
+      else none) (some (none, none, false))
   match r with
-  | some (some i, some dt) => some ⟨i, dt⟩
+  | some (some i, some dt, ts) => some ⟨i, dt, ts⟩
   | _ => none
+
+/-- the dict without its `time_series` entries: what a two-key scheme can store of it -/
+def dropTs (d : Dict) : Dict := d.filter fun e => !sTs.isSuffixOf e.1
 
 /-- a `FEMElementalAttribute`: one `FEMAttribute` per element type -/
 abbrev EAttr := List (Str × Attr)
